@@ -77,16 +77,19 @@ def compute_embeddingbag_gradsampler(layer, inputs, backprops):
         else:
             end = index.shape[0]
 
+        bag = index[begin:end]
+        if layer.padding_idx is not None:
+            # entries holding the padding index are excluded from the reduction
+            bag = bag[bag != layer.padding_idx]
+        if bag.shape[0] == 0:
+            continue
+
         # index_add_ (unlike ``gsm[i][index] += ...``) accumulates repeated indices within a bag
         if layer.mode == "sum":
-            gsm[i].index_add_(
-                0, index[begin:end], backprops[i].expand(end - begin, -1)
-            )
+            gsm[i].index_add_(0, bag, backprops[i].expand(bag.shape[0], -1))
         elif layer.mode == "mean":
             gsm[i].index_add_(
-                0,
-                index[begin:end],
-                (backprops[i] / (end - begin)).expand(end - begin, -1),
+                0, bag, (backprops[i] / bag.shape[0]).expand(bag.shape[0], -1)
             )
 
     ret = {}
